@@ -595,6 +595,7 @@ func TestC01(t *testing.T) {
 			run.Sample(map[string]any{"cfg": cfg.String(), "claims": seq[:min(6, len(seq))]})
 		}
 	}
+	run.Complete()
 	if run.Violations() > 0 {
 		t.Errorf("%d violation(s)", run.Violations())
 	}
